@@ -27,7 +27,7 @@ def halfHi (ax : List ℚ) (c : ℕ) : ℚ × ℚ :=
   (min (pt ax c) (amid (pt ax (posOf c 1)) (pt ax c)), max (pt ax c) (amid (pt ax (posOf c 1)) (pt ax c)))
 
 def wholeCell (ax : List ℚ) (c : ℕ) : ℚ × ℚ :=
-  (amid (leftPoint ax c) (pt ax c), amid (pt ax c) (rightPointN ax.length ax c))
+  (amid (leftPoint ax c) (pt ax c), amid (pt ax c) (rightPoint ax c))
 
 theorem cornerProbs_10 (ax : List ℚ) (o : ℕ) (m : MarginMass) (i1 i2 : ℤ) (h1 : i1 % 2 ≠ 0) (h2 : i2 % 2 = 0) :
     cornerProbs [ax, ax] o m [i1, i2] =
@@ -36,7 +36,7 @@ theorem cornerProbs_10 (ax : List ℚ) (o : ℕ) (m : MarginMass) (i1 i2 : ℤ) 
   unfold cornerProbs halfLo halfHi wholeCell
   rw [oddAxes_two]
   simp [h1, h2, signs, cartesian, cornerProb, cornerBox, totalBox, projVal, projPos, posNd, cornerVal, midT,
-    projLeftPt, projRightPt, len0, List.range_succ]
+    projLeftPt, projRightPt, List.range_succ]
 
 theorem cornerProbs_01 (ax : List ℚ) (o : ℕ) (m : MarginMass) (i1 i2 : ℤ) (h1 : i1 % 2 = 0) (h2 : i2 % 2 ≠ 0) :
     cornerProbs [ax, ax] o m [i1, i2] =
@@ -45,7 +45,7 @@ theorem cornerProbs_01 (ax : List ℚ) (o : ℕ) (m : MarginMass) (i1 i2 : ℤ) 
   unfold cornerProbs halfLo halfHi wholeCell
   rw [oddAxes_two]
   simp [h1, h2, signs, cartesian, cornerProb, cornerBox, totalBox, projVal, projPos, posNd, cornerVal, midT,
-    projLeftPt, projRightPt, len0, List.range_succ]
+    projLeftPt, projRightPt, List.range_succ]
 
 theorem cornerProbs_11 (ax : List ℚ) (o : ℕ) (m : MarginMass) (i1 i2 : ℤ) (h1 : i1 % 2 ≠ 0) (h2 : i2 % 2 ≠ 0) :
     cornerProbs [ax, ax] o m [i1, i2] =
@@ -57,7 +57,7 @@ theorem cornerProbs_11 (ax : List ℚ) (o : ℕ) (m : MarginMass) (i1 i2 : ℤ) 
   unfold cornerProbs halfLo halfHi wholeCell
   rw [oddAxes_two]
   simp [h1, h2, signs, cartesian, cornerProb, cornerBox, totalBox, projVal, projPos, posNd, cornerVal, midT,
-    projLeftPt, projRightPt, len0, List.range_succ]
+    projLeftPt, projRightPt, List.range_succ]
 
 /-! ### where a fine state is sent -/
 
@@ -96,14 +96,14 @@ theorem cornerProb_10 (ax : List ℚ) (m : MarginMass) (i j : ℕ) :
     cornerProb [ax, ax] m [0] [i, j] [1] = m [0] [halfHi ax i] / m [0] [wholeCell ax i] := by
   unfold halfLo halfHi wholeCell
   constructor <;>
-  simp [cornerProb, cornerBox, totalBox, projVal, projPos, cornerVal, midT, projLeftPt, projRightPt, len0]
+  simp [cornerProb, cornerBox, totalBox, projVal, projPos, cornerVal, midT, projLeftPt, projRightPt]
 
 theorem cornerProb_01 (ax : List ℚ) (m : MarginMass) (i j : ℕ) :
     cornerProb [ax, ax] m [1] [i, j] [-1] = m [1] [halfLo ax j] / m [1] [wholeCell ax j] ∧
     cornerProb [ax, ax] m [1] [i, j] [1] = m [1] [halfHi ax j] / m [1] [wholeCell ax j] := by
   unfold halfLo halfHi wholeCell
   constructor <;>
-  simp [cornerProb, cornerBox, totalBox, projVal, projPos, cornerVal, midT, projLeftPt, projRightPt, len0]
+  simp [cornerProb, cornerBox, totalBox, projVal, projPos, cornerVal, midT, projLeftPt, projRightPt]
 
 /-! ### the half cells of an interior position -/
 
@@ -132,7 +132,9 @@ theorem half_cells (c : ℕ) (h0 : 0 < c) (h1 : c + 1 < ax.length) :
   refine ⟨?_, ?_, ?_⟩
   · unfold halfLo; rw [e1, ← lo, min_eq_right (le_of_lt b1.2), max_eq_left (le_of_lt b1.2)]
   · unfold halfHi; rw [e2, amid_comm, ← hi', min_eq_left (le_of_lt b2.1), max_eq_right (le_of_lt b2.1)]
-  · unfold wholeCell; rw [leftPoint_eq, rightPointN_eq _ ax c h1, ← lo, ← hi']
+  · unfold wholeCell
+    have hr : rightPoint ax c = pt ax (c + 1) := by unfold rightPoint pt; rw [Nat.min_eq_right (by omega)]
+    rw [leftPoint_eq, hr, ← lo, ← hi']
 
 end axis
 
@@ -146,23 +148,23 @@ theorem rateNd_joint_two (ax : List ℚ) (o : ℕ) (m : MarginMass) (i j : ℕ) 
       if i = o ∧ j = o then 0
       else m [0, 1] [(cellLo amid ax i, cellHi amid ax i), (cellLo amid ax j, cellHi amid ax j)] := by
   rw [joint_two]
-  unfold rateNd cellBox len0 cellHi
+  unfold rateNd cellBox
   simp
 
 theorem totalBox_10 (ax : List ℚ) (o : ℕ) (i1 i2 : ℤ) :
     totalBox [ax, ax] [0] (posNd o [i1, i2]) = [wholeCell ax (posOf o i1)] := by
   unfold wholeCell
-  simp [totalBox, projVal, projPos, posNd, midT, projLeftPt, projRightPt, len0]
+  simp [totalBox, projVal, projPos, posNd, midT, projLeftPt, projRightPt]
 
 theorem totalBox_01 (ax : List ℚ) (o : ℕ) (i1 i2 : ℤ) :
     totalBox [ax, ax] [1] (posNd o [i1, i2]) = [wholeCell ax (posOf o i2)] := by
   unfold wholeCell
-  simp [totalBox, projVal, projPos, posNd, midT, projLeftPt, projRightPt, len0]
+  simp [totalBox, projVal, projPos, posNd, midT, projLeftPt, projRightPt]
 
 theorem totalBox_11 (ax : List ℚ) (o : ℕ) (i1 i2 : ℤ) :
     totalBox [ax, ax] [0, 1] (posNd o [i1, i2]) = [wholeCell ax (posOf o i1), wholeCell ax (posOf o i2)] := by
   unfold wholeCell
-  simp [totalBox, projVal, projPos, posNd, midT, projLeftPt, projRightPt, len0, List.range_succ]
+  simp [totalBox, projVal, projPos, posNd, midT, projLeftPt, projRightPt, List.range_succ]
 
 /-! ### `pickCorner` -/
 
